@@ -2542,7 +2542,7 @@ func E11GlyphCursor(c *core.Ctx, r *core.Report) {
 
 // E11ReturnedScratch: a function of the SVG importer does not hand out its reusable scratch buffer.
 func E11ReturnedScratch(c *core.Ctx, r *core.Report, fileSuffix string) {
-	r.Rule("E11.returned-scratch", "in the SVG importer no function returns a slice built on the capacity-keeping reslice `B[:0]` of a buffer B that outlives the call (a field of the receiver or a package variable): callers keep such results (the dash array goes into the drawing state, which Push copies by value), and the next call overwrites them in place. Every []float64/[]string-returning function of the file is examined")
+	r.Rule("E11.returned-scratch", "(scope: files of package canvas ending in "+fileSuffix+") no function returns a slice built on the capacity-keeping reslice `B[:0]` of a buffer B that outlives the call (a field of the receiver or a package variable): callers keep such results (the dash array goes into the drawing state, which Push copies by value), and the next call overwrites them in place. Every []float64/[]string-returning function of the file is examined")
 	p := c.MustPkg("")
 	info := p.TypesInfo
 	n := 0
